@@ -239,7 +239,7 @@ func runKS(w *vf.Writer, nrand int) {
 		// with cyclic issuers the validation oracles cannot be asked; no chain is valid then
 		w.Put(vf.Obs{
 			I: i, Stream: "keystore", In: ksCase{Content: c, Oracle: a, Password: pw}, Out: o,
-			Coq:        "(MK " + vf.CoqApp("kc", a.CoqBlocks(), a.CoqChainOK(), obsCoq) + ")",
+			Coq:        "(MK " + vf.CoqApp("kc", a.CoqBlocks(), vf.CoqBool(a.Trailing), a.CoqChainOK(), obsCoq) + ")",
 			Nontrivial: len(a.Blocks) > 1 || o.Res != "ok",
 			Tags:       tags,
 		})
